@@ -272,9 +272,13 @@ def rule_eosflow(run):
     if res is None:
         run.unknown('t2data.eos_json :: result variable', "`if <name>: ... else: raise 'EOS not detected'` not found", where=fi.where()); return
     hits = []
+    # a local holding the simulator string with trailing blanks removed (bound once) is the simulator string for a suffix test
+    sim_alias = set(nm for nm, v, st in roles.assignments(fi.node) if norm(v) in ('self.simulator', 'self.simulator.strip()', 'self.simulator.rstrip()')
+                    and len([1 for nm2, v2, st2 in roles.assignments(fi.node) if nm2 == nm]) == 1)
     for n in ast.walk(fi.node):
         if isinstance(n, ast.If) and isinstance(n.test, ast.Call) and call_name(n.test) == 'endswith' and \
-           norm(n.test.func.value) == 'self.simulator' and n.test.args and isinstance(n.test.args[0], ast.Name):
+           (norm(n.test.func.value) in ('self.simulator', 'self.simulator.strip()', 'self.simulator.rstrip()') or
+            isinstance(n.test.func.value, ast.Name) and n.test.func.value.id in sim_alias) and n.test.args and isinstance(n.test.args[0], ast.Name):
             hits.append(n)
     key = 't2data.eos_json :: simulator-string match reaches %s' % res
     if len(hits) != 1:
